@@ -14,12 +14,16 @@ import (
 	"fmt"
 	"os"
 	"path/filepath"
+	"strings"
 
 	"github.com/dolthub/dolt/go/libraries/doltcore/doltdb"
+	"github.com/dolthub/dolt/go/libraries/doltcore/doltdb/durable"
 	"github.com/dolthub/dolt/go/libraries/doltcore/merge"
 	"github.com/dolthub/dolt/go/libraries/doltcore/ref"
 	"github.com/dolthub/dolt/go/libraries/doltcore/sqle/dsess"
 	"github.com/dolthub/dolt/go/libraries/doltcore/table/editor"
+	"github.com/dolthub/dolt/go/store/prolly/tree"
+	"github.com/dolthub/dolt/go/store/val"
 	"github.com/dolthub/go-mysql-server/sql"
 
 	"verif/harness/internal/hx"
@@ -134,6 +138,46 @@ func (r *runner) mergeDirect(ours, theirs, tbl string, forceRowPath bool) pathRe
 	return out
 }
 
+// chunkEnds walks the primary index of table tbl at main's head and returns the last key of every
+// leaf chunk, in key order.
+func (r *runner) chunkEnds(tbl string) ([]int64, error) {
+	ctx := r.sqlCtx()
+	sql.SessionCommandBegin(ctx.Session)
+	defer sql.SessionCommandEnd(ctx.Session)
+	ddb := r.eng.DEnv.DoltDB(ctx)
+	c, err := ddb.ResolveCommitRef(ctx, ref.NewBranchRef("main"))
+	if err != nil {
+		return nil, err
+	}
+	root, err := c.GetRootValue(ctx)
+	if err != nil {
+		return nil, err
+	}
+	t, ok, err := root.GetTable(ctx, doltdb.TableName{Name: tbl})
+	if err != nil || !ok {
+		return nil, fmt.Errorf("table %s not found: %v", tbl, err)
+	}
+	idx, err := t.GetRowData(ctx)
+	if err != nil {
+		return nil, err
+	}
+	m, err := durable.ProllyMapFromIndex(idx)
+	if err != nil {
+		return nil, err
+	}
+	kd := m.KeyDesc()
+	var ends []int64
+	err = tree.WalkNodes(ctx, m.Node(), m.NodeStore(), func(_ context.Context, nd *tree.Node) error {
+		if nd != nil && nd.IsLeaf() && nd.Count() > 0 {
+			if v, ok := kd.GetInt32(0, val.Tuple(nd.GetKey(nd.Count()-1))); ok {
+				ends = append(ends, int64(v))
+			}
+		}
+		return nil
+	})
+	return ends, err
+}
+
 func statsWire(s merge.MergeStats) string {
 	return fmt.Sprintf("%d,%d,%d,%d", s.Adds, s.Modifications, s.Deletes, s.DataConflicts)
 }
@@ -147,12 +191,33 @@ func (r *runner) runOne(sc *rmkit.Scenario) {
 	n := r.n
 	tbl := fmt.Sprintf("t%d", n)
 	s.MustExec("call dolt_checkout('main')")
+	if sc.MultiRows > 0 {
+		sc.BaseCols = []rmkit.Col{{ID: 1, Ty: 'i'}}
+	}
 	s.MustExec(rmkit.CreateSQL(tbl, sc.BaseCols, false))
 	cols := append([]rmkit.Col{}, sc.BaseCols...)
 	for i, row := range sc.BaseRows {
 		s.MustExec(rmkit.Op{Kind: "ins", Key: int64(i + 1), Row: row}.SQL(tbl, &cols))
 	}
+	for lo := 1; lo <= sc.MultiRows; lo += 500 {
+		var vals []string
+		for k := lo; k < lo+500 && k <= sc.MultiRows; k++ {
+			vals = append(vals, fmt.Sprintf("(%d,%d)", k, rmkit.MultiVal(int64(k))))
+		}
+		s.MustExec(fmt.Sprintf("insert into %s (pk, c1) values %s", tbl, strings.Join(vals, ",")))
+	}
 	s.MustExec("call dolt_commit('-Am', 'base')")
+	if sc.MultiRows > 0 {
+		ends, err := r.chunkEnds(tbl)
+		if err != nil {
+			panic(err)
+		}
+		r.e.Rep.Hit(fmt.Sprintf("multi-chunk-leaves:%d", min(len(ends), 9)))
+		if len(sc.Ours) == 0 && len(sc.Theirs) == 0 {
+			sc.Ours, sc.Theirs = rmkit.GenMultiOps(hx.NewRng(sc.MultiSeed), ends, int64(sc.MultiRows))
+		}
+		r.e.Rep.Hit("multi-chunk")
+	}
 	base, err := rmkit.ReadTable(s, tbl)
 	if err != nil {
 		panic(err)
@@ -259,7 +324,7 @@ func main() {
 	}
 	for _, raw := range e.CorpusCases() {
 		var sc rmkit.Scenario
-		if json.Unmarshal(raw, &sc) == nil && len(sc.BaseCols) > 0 {
+		if json.Unmarshal(raw, &sc) == nil && (len(sc.BaseCols) > 0 || sc.MultiRows > 0) {
 			run(&sc)
 		}
 	}
@@ -269,7 +334,13 @@ func main() {
 		Ours:   []rmkit.Op{{Kind: "ins", Key: 2, Row: []rmkit.Val{rmkit.IntV(5)}}},
 		Theirs: []rmkit.Op{{Kind: "ins", Key: 3, Row: []rmkit.Val{rmkit.IntV(7)}}}, Resolve: "none"})
 	root := hx.NewRng(e.Seed*0xD6E8FEB86659FD93 ^ e.Rng.U64())
-	n := e.N(70, 600)
+	// multi-chunk family: tables with several leaf chunks, edits on chunk-boundary keys (SendPatches'
+	// range/point branches are only reachable there)
+	for i, nm := 0, e.N(3, 25); i < nm; i++ {
+		rng := root.Fork()
+		run(&rmkit.Scenario{MultiRows: rng.Range(1500, 3000), MultiSeed: rng.U64(), Resolve: "none"})
+	}
+	n := e.N(60, 600)
 	for i := 0; i < n; i++ {
 		rng := root.Fork()
 		o := rmkit.GenOpts{SchemaChange: 3, MaxKeys: 8, Cellwise: 3}
